@@ -326,3 +326,57 @@ where
 impl<T> Handle<T>
 where
     T: NotHotReloaded,'''))
+
+# ---- C13
+V('c13-downcast-unchecked', 'C13', 'C13.R1', (E, '''        if self.is::<T>() {
+            unsafe { Some(&*(self as *const Self as *const EntryStorage<T>)) }
+        } else {
+            None
+        }''', '''        if self.is::<T>() || std::mem::size_of::<T>() == 0 {
+            unsafe { Some(&*(self as *const Self as *const EntryStorage<T>)) }
+        } else {
+            None
+        }'''))
+V('c13-box-downcast-inverted', 'C13', 'C13.R1', (E, '''        if self.is::<T>() {
+            unsafe { Ok(Box::from_raw(Box::into_raw(self) as *mut EntryStorage<T>)) }
+        } else {
+            Err(self)
+        }''', '''        if !self.is::<T>() && self.id.is_empty() {
+            Err(self)
+        } else {
+            unsafe { Ok(Box::from_raw(Box::into_raw(self) as *mut EntryStorage<T>)) }
+        }'''))
+V('c13-handle-not-transparent', 'C13', 'C13.R1', (E, '''#[repr(transparent)]
+pub struct Handle<T> {''', '''pub struct Handle<T> {'''))
+V('c13-debug-assert-only', 'C13', 'C13.R2', (E, 'assert!(self.type_id == value.0.type_id);', 'debug_assert!(self.type_id == value.0.type_id);'))
+V('c13-forget-old-value', 'C13', 'C13.R3', (E, '''                d.reload_global.store(true, Ordering::Release);
+            }
+            return;''', '''                d.reload_global.store(true, Ordering::Release);
+            }
+            std::mem::forget(value);
+            return;'''))
+V('c13-take-duplicates', 'C13', 'C13.R3', (C, '''        let (asset, _) = self.assets.take(id, TypeId::of::<T>())?.into_inner();
+        Some(asset)''', '''        let (asset, _) = self.assets.take(id, TypeId::of::<T>())?.into_inner();
+        let copy = unsafe { std::ptr::read(&asset) };
+        drop(copy);
+        Some(asset)'''))
+V('c13-is-compares-wrong-type', 'C13', 'C13.R1', (E, '''    fn is<T: 'static>(&self) -> bool {
+        self.type_id == TypeId::of::<T>()
+    }
+
+    #[inline]
+    fn downcast_ref''', '''    fn is<T: 'static>(&self) -> bool {
+        self.type_id == TypeId::of::<T>() || self.type_id == TypeId::of::<Box<T>>()
+    }
+
+    #[inline]
+    fn downcast_ref'''))
+V('c13-benign-downcast-match', 'C13', 'silent', (E, '''        if self.is::<T>() {
+            unsafe { Some(&*(self as *const Self as *const EntryStorage<T>)) }
+        } else {
+            None
+        }''', '''        if !self.is::<T>() {
+            return None;
+        }
+        let ptr = self as *const Self as *const EntryStorage<T>;
+        unsafe { Some(&*ptr) }'''))
